@@ -46,7 +46,7 @@ MANIFEST = {
     'technique': 'runtime monitoring: client-boundary history checking with unique ids under delay/yield/fault injection',
 }
 TIMEOUT = {'quick': 1500, 'thorough': 7200}
-BATCH_WATCHDOG = 240
+BATCH_WATCHDOG = 150
 
 
 def shards(tier):
@@ -56,7 +56,7 @@ def shards(tier):
 def floors(tier):
     scale = 1 if tier == 'quick' else 12
     return {'evaluations': 120 * scale, 'responses_checked': 100 * scale, 'failing_requests_injected': 10 * scale,
-            'failing_alone_confirmed': 10 * scale, 'batches': 6 * scale, 'out_of_order_batches': 1, 'cold_start_requests': 3,
+            'failing_alone_confirmed': 10 * scale, 'batches': 6 * scale, 'out_of_order_batches': 1, 'cold_start_requests': 3, 'cold_dispatch_checked': 100,
             'yield_injections': 50}
 
 
@@ -227,6 +227,53 @@ def judge(ctx, apps, history, batch, order, config_sig, cold=False):
             ctx.count('failing_alone_confirmed')
 
 
+def cold_dispatch_rounds(ctx, rng, functions, inventory, registry, apps, layout, config_sig):
+    """Concurrent first `Wrapper.extract` calls on fresh wrappers under yield injection."""
+    from forml.provider.inventory import posix as invposix
+    from forml.provider.registry.filesystem import posix as regposix
+    from forml.runtime import _perf
+    from forml.runtime._service import dispatch
+
+    appnames = sorted(apps)
+    rounds = ctx.pick(25, 60)
+    with Yielder(rng, functions):
+        for number in range(rounds):
+            wrapper = dispatch.Wrapper(invposix.Inventory(inventory), regposix.Registry(registry), 4)
+            loop = asyncio.new_event_loop()
+            try:
+                calls = [(app, 7000 + 100 * number + i) for i, app in enumerate(appnames * rng.randint(2, 4))]
+                rng.shuffle(calls)
+
+                async def one(app, rid):
+                    try:
+                        query = await wrapper.extract(app, make_request(layout, rid, f'c{rid}', 'ok'), _perf.Stats())
+                        return app, rid, ('ok', str(query.instance), [list(r) for r in query.decoded.entry.data.to_rows()])
+                    except Exception as err:  # pylint: disable=broad-except
+                        return app, rid, ('err', type(err).__name__, str(err)[:160])
+
+                async def batch():
+                    return await asyncio.gather(*(one(app, rid) for app, rid in calls))
+
+                results = loop.run_until_complete(batch())
+            finally:
+                loop.close()
+                wrapper.shutdown()
+            for app, rid, outcome in results:
+                ctx.count('evaluations')
+                ctx.count('cold_dispatch_checked')
+                info = apps[app]
+                witness = {'config': config_sig, 'request': [rid, app, f'c{rid}', 'ok'], 'outcome': outcome, 'cold_round': number}
+                if outcome[0] != 'ok':
+                    key = 'healthy-request-failed'
+                    if outcome[1] in ('MissingError', 'KeyError') and app in outcome[2]:
+                        key = 'cold-start-descriptor-lookup-race'
+                    elif outcome[1] == 'InvalidError' and 'Component setup incomplete' in outcome[2]:
+                        key = 'cold-start-descriptor-loaded-concurrently'
+                    ctx.violation(key, f'cold dispatch of request {rid} to {app} failed with {outcome[1:]}', witness)
+                elif f'{info["project"]}-1-{info["generation"]}' not in outcome[1] or outcome[2] != [[rid, f'c{rid}']]:
+                    ctx.violation('cold-dispatch-misrouted', f'cold dispatch of request {rid} to {app} -> {outcome[1:]}', witness)
+
+
 def serve_config(ctx, config, index):
     from forml import io as fio
     from forml.io import layout
@@ -245,6 +292,9 @@ def serve_config(ctx, config, index):
         appnames = sorted(apps)
         functions = [prediction.Executor.apply, prediction.Executor.run, dispatch.Dealer.__call__,
                      dispatch.Wrapper._get_descriptor, dispatch.Wrapper._dispatch]  # pylint: disable=protected-access
+        # cold dispatch rounds: fresh wrappers (no executors involved) receive concurrent first requests - the cheap way
+        # to sample many interleavings of the lazy descriptor / instance lookups
+        cold_dispatch_rounds(ctx, rng, functions, inventory, registry, apps, layout, config_sig)
         engine = Engine(invposix.Inventory(inventory), regposix.Registry(registry), fio.Importer(serving.Feed()),
                         processes=config['pool'])
         history = {}
@@ -263,7 +313,19 @@ def serve_config(ctx, config, index):
                     ctx.count('cold_start_requests', len(batch))
                     order, pending = loop.run_until_complete(run_batch(ctx, engine, layout, apps, batch, history))
                     if pending:
-                        ctx.inconclusive(f'cold-start batch not answered within {BATCH_WATCHDOG}s')
+                        flush = []
+                        for app in appnames:
+                            rid += 1
+                            flush.append((rid, app, f'f{rid}', 'ok'))
+                        _, stuck = loop.run_until_complete(run_batch(ctx, engine, layout, apps, flush, history))
+                        lost = [b for b in batch if history[b[0]]['outcome'] is None]
+                        if not stuck and lost:
+                            ctx.violation('request-lost', f'{len(lost)} cold-start requests unanswered although a later flush batch was '
+                                          f'served: {lost[:3]}', {'config': config_sig, 'lost': lost[:10]})
+                        else:
+                            ctx.inconclusive(f'cold-start batch not answered within {BATCH_WATCHDOG}s and the flush batch hung too')
+                        for task in list(pending) + list(stuck):
+                            task.cancel()
                         return
                     judge(ctx, apps, history, batch, order, config_sig, cold=True)
                     for size in config['batches']:
